@@ -18,7 +18,10 @@ use emmylua_code_analysis::{
     read_file_with_encoding, uri_to_file_path,
 };
 use lsp_types::Uri;
+#[cfg(not(emmyluals_emmylua_analyzer_rust_verif))]
 use tokio::sync::{Mutex as AsyncMutex, RwLock};
+#[cfg(emmyluals_emmylua_analyzer_rust_verif)]
+use crate::verif_lock::{Mutex as AsyncMutex, RwLock};
 use tokio_util::sync::CancellationToken;
 
 pub struct WorkspaceManager {
